@@ -308,7 +308,9 @@ impl Check for C20 {
                     }
                     let before_len = model[w].len();
                     let oversized = must_fail(p);
-                    let unjudged_size = matches!(p, Payload::Section(f) | Payload::SectionAdvanced(_, f) if f.len > 65535);
+                    // (a TLV section has no 16-bit length of its own and the property bounds only
+                    // byte slices: a section of any size is an encodable value)
+                    let unjudged_size = false;
                     let last_part_start = before_len + enc.len() - last_part_len(p, enc.len()).min(enc.len());
                     let judged = !unjudged_size && (oversized || last_part_start < SAFE_TOTAL);
                     let r = guard(|| real_write(p, &data, &mut real[w], by_ref));
@@ -523,7 +525,7 @@ impl Check for C20 {
     fn assumptions(&self) -> Vec<String> {
         vec![
             "a writer that holds less than 65535 bytes is below its size limit (a smaller limit could not hold a maximal payload); a value is judged when that is so throughout its write, i.e. also when the last of its parts begins; other writes are not judged".into(),
-            "a TypeLengthValues section above 65535 bytes is not judged (it has no 16-bit length of its own and the property names byte slices of at most 65535 bytes)".into(),
+            "a TypeLengthValues section of any size is an encodable value (the property bounds byte slices only); its encoding is the whole section wherever its iterator stands".into(),
             "the writers' contents are observed through finish() / Writer::from(), the only public way to look into a Writer".into(),
         ]
     }
